@@ -100,18 +100,35 @@ Proof. exact indent_same_items. Qed.
 Print Assumptions C16_indent_only_ws.
 
 (* ---------------- JSON ---------------- *)
-(* what mxj adds to encoding/json: Map.Json is a function of the bytes json.Marshal returned *)
-Theorem C16_json_function_of_marshal_bytes : forall safe r r', r = r' -> map_json safe r = map_json safe r'.
+(* what mxj adds to encoding/json (json.go marshalJSON, after fix b2598e9): Map.Json(safe) is a function of the
+   bytes json.Encoder.Encode wrote under SetEscapeHTML(safe) - namely those bytes without the final newline *)
+Theorem C16_json_function_of_encoder_bytes : forall r r', r = r' -> map_json r = map_json r'.
 Proof. exact map_json_of_bytes. Qed.
-Print Assumptions C16_json_function_of_marshal_bytes.
+Print Assumptions C16_json_function_of_encoder_bytes.
 
-(* so it is deterministic whenever encoding/json is (it sorts map keys: the environment's contract,
+Theorem C16_json_is_encoder_output : forall b, map_json (Ok (b ++ [nl])) = Ok b.
+Proof. exact map_json_encoded. Qed.
+Print Assumptions C16_json_is_encoder_output.
+
+(* Map.JsonIndent(p, i, safe) is json.Indent(p, i) of exactly those bytes *)
+Theorem C16_json_indent_is_indent_of_json : forall indent b, map_json_indent indent (Ok (b ++ [nl])) = indent b.
+Proof. exact map_json_indent_spec. Qed.
+Print Assumptions C16_json_indent_is_indent_of_json.
+
+(* so both are deterministic whenever encoding/json is (it sorts map keys: the environment's contract,
    an explicit hypothesis here, observed by the oracle on every run) *)
-Theorem C16_json_perm_invariant : forall marshal : value -> res str,
-  (forall v v', wf v -> veq v v' -> marshal v = marshal v') ->
-  forall safe v v', wf v -> veq v v' -> map_json safe (marshal v) = map_json safe (marshal v').
+Theorem C16_json_perm_invariant : forall encode : bool -> value -> res str,
+  (forall safe v v', wf v -> veq v v' -> encode safe v = encode safe v') ->
+  forall safe v v', wf v -> veq v v' -> map_json (encode safe v) = map_json (encode safe v').
 Proof. exact map_json_perm_invariant. Qed.
 Print Assumptions C16_json_perm_invariant.
+
+Theorem C16_json_indent_perm_invariant : forall encode : bool -> value -> res str,
+  (forall safe v v', wf v -> veq v v' -> encode safe v = encode safe v') ->
+  forall indent safe v v', wf v -> veq v v' ->
+  map_json_indent indent (encode safe v) = map_json_indent indent (encode safe v').
+Proof. exact map_json_indent_perm_invariant. Qed.
+Print Assumptions C16_json_indent_perm_invariant.
 
 (* ---------------- Writer / Raw forms ---------------- *)
 Theorem C16_writer_writes_bytes : forall x sink, writer_form (Ok x) sink = (Ok tt, sink ++ x).
@@ -141,10 +158,11 @@ Theorem C16_maps_file_is_string : forall x, maps_file (x, None) = (Some x, None)
 Proof. exact maps_file_ok. Qed.
 Print Assumptions C16_maps_file_is_string.
 
-(* Maps.JsonString(safe) is the concatenation of the Json(safe) encodings (after fix da6537e; on the pinned
-   tree the argument was ignored: witness [ {"a":"<"} ] with safe = true) *)
-Theorem C16_maps_json_string_concat : forall safe bs,
-  maps_json_string safe (map Ok bs) = (concat (map (json_post safe) bs), None).
+(* Maps.JsonString(safe) is the concatenation of the per-Map Json(safe) encodings: js flag = the per-Map results
+   of Json(flag).  (After fix da6537e; on the pinned tree the argument was ignored - the model then consulted
+   js false - and JsonString(true) on [ {"a":"<"} ] was not that concatenation.) *)
+Theorem C16_maps_json_string_concat : forall safe js xs,
+  js safe = map Ok xs -> maps_json_string safe js = (concat xs, None).
 Proof. exact maps_json_string_concat. Qed.
 Print Assumptions C16_maps_json_string_concat.
 
@@ -152,18 +170,18 @@ Print Assumptions C16_maps_json_string_concat.
    A newline is written between the documents: refuted by the witness [ {} ; {} ] (KNOWN_FINDINGS key
    maps-jsonstringindent-newline-separator) ... *)
 Theorem C16_maps_json_string_indent_refuted :
-  exists bs, maps_json_string_indent false (map Ok bs) <> (concat (map (json_post false) bs), None).
+  exists xs, maps_json_string_indent false (fun _ => map Ok xs) <> (concat xs, None).
 Proof. exact maps_json_string_indent_refuted. Qed.
 Print Assumptions C16_maps_json_string_indent_refuted.
 
 (* ... what holds instead: the JsonIndent(p, i, safe) encodings joined by "\n"; one document is returned as it is *)
-Theorem C16_maps_json_string_indent_partial : forall safe bs,
-  maps_json_string_indent safe (map Ok bs) = (join [ascii_of_nat 10] (map (json_post safe) bs), None).
+Theorem C16_maps_json_string_indent_partial : forall safe ji xs,
+  ji safe = map Ok xs -> maps_json_string_indent safe ji = (join [nl] xs, None).
 Proof. exact maps_json_string_indent_join. Qed.
 Print Assumptions C16_maps_json_string_indent_partial.
 
-Theorem C16_maps_json_string_indent_single : forall safe b,
-  maps_json_string_indent safe [Ok b] = (json_post safe b, None).
+Theorem C16_maps_json_string_indent_single : forall safe ji x,
+  ji safe = [Ok x] -> maps_json_string_indent safe ji = (x, None).
 Proof. exact maps_json_string_indent_single. Qed.
 Print Assumptions C16_maps_json_string_indent_single.
 
@@ -215,6 +233,7 @@ Example ex_root_rules_differ :
 Proof. vm_compute. repeat split. Qed.
 Example ex_root_rules_agree : root_rules_differ (ex_entries ex_m) None = false.
 Proof. reflexivity. Qed.
-Example ex_json_post :
-  json_post false lt_doc = s "{""a"":""<""}" /\ json_post true lt_doc = lt_doc.
-Proof. vm_compute. split; reflexivity. Qed.
+Example ex_json : map_json (Ok (s "{""a"":""<""}" ++ [nl])) = Ok (s "{""a"":""<""}").
+Proof. vm_compute. reflexivity. Qed.
+Example ex_maps_json : maps_json_string true (fun safe => if safe then [Ok (s "{""a"":1}"); Ok (s "{}")] else []) = (s "{""a"":1}{}", None).
+Proof. vm_compute. reflexivity. Qed.
